@@ -1,12 +1,13 @@
 """C04 - window discipline (DESIGN.md section 5, C04)."""
 import kcp_common as K
+import sess_common as S
 
 META = {
     "enabled": True,
     "engine": "kcp",
     "technique": "Coq inductive invariant over all call sequences with arbitrary (forged) inputs + extraction-based differential replay + window monitors",
     "level_text": "Machine-checked invariant of the transcribed ARQ core: from the initial state every sequence of Send/Recv/Input(any bytes)/flush/Update/Check/SetMtu/NoDelay of any length keeps |rcv_queue| <= rcv_wnd, |rcv_buf| <= rcv_wnd (distinct numbers inside one window), snd_buf = the contiguous range [snd_una, snd_nxt) of at most snd_wnd segments, never faults, and every emitted segment advertises exactly the free space of the delivery queue; admission is proved against min(snd_wnd, rmt_wnd[, cwnd]). The model is tied to kcp.go by replaying op logs of two real cores under a fake clock (every return value, every datagram byte for byte, full state projection after every call), with faults, reordering and a forging peer.",
-    "level_note": K.TRUST + " Session-level Write admission (WriteBuffers blocks while waitsnd >= snd_wnd) is covered by the wait-loop model of C13, not here. F16 (fast-recovery arithmetic re-opens cwnd before the oldest segment is acknowledged) is upstream KCP behaviour: see known_findings.json.",
+    "level_note": K.TRUST + " Session-level Write admission is proved on the transcription of WriteBuffers' locked section (coq/sess/C04sess.v: admitted only while waitsnd < snd_wnd, a blocked pass leaves the session equal, occupancy bound after an admitted write) and replayed against real sessions; the blocking/wake-up around it is C13. F16 (fast-recovery arithmetic re-opens cwnd before the oldest segment is acknowledged) is upstream KCP behaviour: see known_findings.json.",
 }
 OBLIGATIONS = ["c04_init", "c04_config", "c04_step", "c04_reachable", "c04_rcv_queue_bound", "c04_rcv_buf_bound",
                "c04_outstanding", "c04_wnd_truthful", "c04_admission", "c04_cwnd_after_flush"]
@@ -16,6 +17,7 @@ RELEVANT = K.WINDOW | K.RESULTS | K.PANICS
 def run(ctx):
     K.core_check(ctx, "C04", "C04.v", OBLIGATIONS, RELEVANT,
                  "kcp.go vs coq/kcp/Kcp.v on lossy, stalled-reader and forging-peer histories")
+    S.session_part(ctx, "C04")
     ctx.coverage["rule"] = ("random two-endpoint histories (windows 1..1024, mtu 25..1500, both modes, both drivers, sn/clock offsets around 2^31 and 2^32) "
                             "with drop/dup/reorder/delay, reader stalls, and a forging peer (header fields replaced by boundary values, truncations, random bytes); "
                             "non-trivial = the history has a zero-window episode, a forged datagram or a retransmission")
